@@ -384,6 +384,11 @@ func (t *WeightedMerkleTrie) Weight() uint64 {
 // Commit collapses the trie to the specified level and returns the batcher and the deleted nodes, it is the caller's responsibility to commit the batch
 func (t *WeightedMerkleTrie) Commit(collapseLevel int) (storage.Batcher, error) {
 	batcher := t.db.NewBatch()
+	if t.emptied {
+		// committing a trie that uncommitted deletes have emptied writes nothing, so this
+		// commit creates no node: forget the nodes the previous commit created
+		t.created = nil
+	}
 	t.emptied = false
 	if !t.root.Dirty() {
 		return batcher, nil
